@@ -220,4 +220,5 @@ mod std_wakers {
     }
 
     crate::proof!(waker_vec_k5, 9, { waker_vec_ops(5) });
+    crate::proof!(waker_vec_k3, 9, { waker_vec_ops(3) });
 }
